@@ -217,14 +217,24 @@ theorem rel_of_tablesOk (h : TablesOk T = true) : ∀ e : TExpr, WF T S e = true
     intro hw
     have hL : leafCheck T = true := by simp only [TablesOk, Bool.and_eq_true] at h; exact h.1.1.1.1.1
     simp only [leafCheck, Bool.and_eq_true, List.all_eq_true] at hL
-    simp only [WF, Bool.and_eq_true, beq_iff_eq] at hw
-    obtain ⟨hq, hl⟩ := hw
-    subst hq
-    cases hlk : S.lookup n with
-    | none => simp [hlk] at hl
-    | some t =>
-      simp only [hlk, List.contains_iff_mem] at hl
-      simpa [sm, eng, annotCol, hlk] using hL.1.1.1.1 t hl
+    cases q with
+    | this =>
+      simp only [WF] at hw
+      cases hlk : S.table.lookup n with
+      | none => simp [hlk] at hw
+      | some t =>
+        simp only [hlk, List.contains_iff_mem] at hw
+        simpa [sm, eng, annotCol, hlk] using hL.1.1.1.1 t hw
+    | derived a =>
+      simp only [WF] at hw
+      cases hlk : (S.derived.lookup a).bind (·.lookup n) with
+      | none => simp [hlk] at hw
+      | some p =>
+        obtain ⟨t, e⟩ := p
+        simp only [hlk, Bool.and_eq_true] at hw
+        simpa [sm, eng, annotCol, hlk] using hw.1
+    | none => simp [WF] at hw
+    | other => simp [WF] at hw
   | .intLit => by
     intro _
     have hL : leafCheck T = true := by simp only [TablesOk, Bool.and_eq_true] at h; exact h.1.1.1.1.1
@@ -302,6 +312,75 @@ theorem relArgs_of_tablesOk (h : TablesOk T = true) :
     simp only [smArgs, engArgs, relAll, Bool.and_eq_true]
     exact ⟨⟨rel_of_tablesOk h e hw.1, ht.1.2⟩, relArgs_of_tablesOk h rest hw.2 ht.2⟩
 end
+
+/-! ### the per-call cache of child-scope projections is transparent when its key contains the scope -/
+
+theorem mem_of_lookup {β : Type} : ∀ (l : List ((Nat × String) × β)) (k : Nat × String) (v : β),
+    l.lookup k = some v → (k, v) ∈ l
+  | [], _, _, h => by simp [List.lookup] at h
+  | (k', v') :: l, k, v, h => by
+    simp only [List.lookup] at h
+    split at h
+    · rename_i heq
+      simp only [beq_iff_eq] at heq
+      simp only [Option.some.injEq] at h
+      subst heq; subst h
+      exact List.mem_cons_self
+    · exact List.mem_cons_of_mem _ (mem_of_lookup l k v h)
+
+/-- entries of the current scope are what a miss would compute; no entry belongs to a later scope -/
+def CacheInv (cache : SelCache) (i : Nat) (S : Schema) : Prop :=
+  (∀ a v, cache.lookup (i, a) = some v → v = sourceSelects S a) ∧ (∀ k v, (k, v) ∈ cache → k.1 ≤ i)
+
+theorem cachedSelects_sound (cache : SelCache) (i : Nat) (S : Schema) (a : String) (h : CacheInv cache i S) :
+    (cachedSelects true cache i S a).2 = sourceSelects S a ∧ CacheInv (cachedSelects true cache i S a).1 i S := by
+  simp only [cachedSelects, cacheKey, if_true]
+  cases hl : cache.lookup (i, a) with
+  | some sel => exact ⟨h.1 a sel hl, h⟩
+  | none =>
+    refine ⟨rfl, ?_, ?_⟩
+    · intro a' v hv
+      simp only [List.lookup] at hv
+      split at hv
+      · rename_i heq
+        simp only [beq_iff_eq, Prod.mk.injEq] at heq
+        simp only [Option.some.injEq] at hv
+        rw [← hv, heq.2]
+      · exact h.1 a' v hv
+    · intro k v hm
+      simp only [List.mem_cons] at hm
+      rcases hm with hm | hm
+      · simp only [Prod.mk.injEq] at hm; rw [hm.1]; exact Nat.le_refl _
+      · exact h.2 k v hm
+
+theorem resolveRefs_sound (i : Nat) (S : Schema) :
+    ∀ (refs : List (String × String)) (cache : SelCache), CacheInv cache i S →
+      (resolveRefs true i S cache refs).2 = refs.map (fun (a, n) => selTy (sourceSelects S a) n)
+      ∧ CacheInv (resolveRefs true i S cache refs).1 i S
+  | [], cache, h => ⟨rfl, h⟩
+  | (a, n) :: rest, cache, h => by
+    have h1 := cachedSelects_sound cache i S a h
+    have h2 := resolveRefs_sound i S rest (cachedSelects true cache i S a).1 h1.2
+    simp only [resolveRefs, List.map_cons]
+    exact ⟨by rw [h1.1, h2.1], h2.2⟩
+
+/-- **Cache transparency.** With the scope in the key, one shared cache over any number of scopes resolves every reference
+    exactly as its own scope's sources say — whatever aliases and column names recur. -/
+theorem runScopes_transparent :
+    ∀ (qs : List (Schema × List (String × String))) (cache : SelCache) (i : Nat),
+      (∀ k v, (k, v) ∈ cache → k.1 < i) → runScopes true cache i qs = uncachedScopes qs
+  | [], _, _, _ => rfl
+  | (S, refs) :: rest, cache, i, hfresh => by
+    have hinv : CacheInv cache i S := by
+      refine ⟨?_, fun k v hm => Nat.le_of_lt (hfresh k v hm)⟩
+      intro a v hv
+      exact absurd (hfresh _ _ (mem_of_lookup cache (i, a) v hv)) (Nat.lt_irrefl i)
+    have hs := resolveRefs_sound i S refs cache hinv
+    have hnext : ∀ k v, (k, v) ∈ (resolveRefs true i S cache refs).1 → k.1 < i + 1 :=
+      fun k v hm => Nat.lt_succ_of_le (hs.2.2 k v hm)
+    simp only [runScopes, uncachedScopes, List.map_cons]
+    rw [hs.1, runScopes_transparent rest _ (i + 1) hnext]
+    rfl
 
 /-- `Rel` at a non-literal summary is class equality -/
 theorem rel_class {s : Sm} {e : ETy} (h : Rel s e = true) : eclassOf e = some (classOf s.ty) := by
